@@ -116,3 +116,17 @@ Example C01_example_slots : map (slot_name (fun p _ => p) kname_id listpre) (slo
 Proof. vm_compute. reflexivity. Qed.
 Example C01_example_run : exists kw, run_a2k kin_block ex_cfg [2; -1]%R 0 = Some (kw, 2%nat).
 Proof. eexists. vm_compute. reflexivity. Qed.
+
+(* THE LINE-OF-SIGHT BLOCK AT INTERPRETER LEVEL, FOR ANY NUMBER OF POPULATIONS (LosStep.v / LosN.v: induction over the interpreter's loop, the
+   subscripts at the symbolic population index resolved by a lemma) - a second route, independent of the ladder reading used above: when no
+   line-of-sight parameter is fixed, LOSParam.kwargs2args returns, population by population, mean and sigma for a GAUSSIAN population, mean,
+   sigma and xi for a GEV population, and nothing for any other distribution name - in that order, whatever the number of populations. *)
+Require Import Py.Sym C01.LosStep C01.LosN.
+Theorem C01_los_vector_layout_any_number_of_populations : forall (pops : list pop) (w : world),
+  call LosStep.G0 80 (CFun src_LOSParam_kwargs2args) (Some (selfL pops)) [VList (map kwd pops)] [] w = Ok (VList (flat_map free_vals pops), w).
+Proof. exact los_kwargs2args_any_number. Qed.
+Print Assumptions C01_los_vector_layout_any_number_of_populations.
+Example C01_los_layout_instance :
+  flat_map free_vals [{| pk := DGauss; vm := 1; vs := 2; vx := 3 |}; {| pk := DOther; vm := 4; vs := 5; vx := 6 |}; {| pk := DGev; vm := 7; vs := 8; vx := 9 |}]
+  = [snum 1; snum 2; snum 7; snum 8; snum 9].
+Proof. reflexivity. Qed.
